@@ -92,10 +92,12 @@ theorem quad_inverse_zero {cfg : QuadCfg F} {B : FieldD P F} :
   Quad.inverse_zero
 
 example : ∀ x : ZMod 7, x * x ≠ c7neg.wrap.nonresidue := nonsq7_neg
-example : Quad.inverse c7neg.wrap B7 (⟨3, 4⟩ : Quad (ZMod 7)) = .ok (some ⟨4, 4⟩) := by decide
-example : Quad.mul c7neg.wrap B7 (⟨3, 4⟩ : Quad (ZMod 7)) ⟨4, 4⟩ = 1 := by decide
+example : Quad.inverse c7neg.wrap B7 (⟨3, 4⟩ : Quad (ZMod 7)) = .ok (some ⟨6, 6⟩) := by
+  decide +kernel
+example : Quad.mul c7neg.wrap B7 (⟨3, 4⟩ : Quad (ZMod 7)) ⟨6, 6⟩ = 1 := by decide
 /-- over `F₇`, `2 = 3²` is a square: `X² - 2` is reducible and `(3, 1)` has no inverse -/
-example : Quad.inverse (Fp2Cfg.default (2 : ZMod 7) []).wrap B7 ⟨3, 1⟩ = .ok none := by decide
+example : Quad.inverse (Fp2Cfg.default (2 : ZMod 7) []).wrap B7 ⟨3, 1⟩ = .ok none := by
+  decide +kernel
 
 /-! ### 16. the cubic inverse -/
 
@@ -132,11 +134,12 @@ theorem cubic_inverse_panics_of_cube {cfg : CubicCfg F} {B : FieldD P F} (hB : B
   rfl
 
 example : ∀ x : ZMod 7, x ^ 3 ≠ c7cub.wrap.nonresidue := noncube7
-example : Cubic.inverse c7cub.wrap B7 (⟨1, 2, 3⟩ : Cubic (ZMod 7)) = .ok (some ⟨2, 2, 6⟩) := by
-  decide
-example : Cubic.mul c7cub.wrap (⟨1, 2, 3⟩ : Cubic (ZMod 7)) ⟨2, 2, 6⟩ = 1 := by decide
+example : Cubic.inverse c7cub.wrap B7 (⟨1, 2, 3⟩ : Cubic (ZMod 7)) = .ok (some ⟨1, 1, 2⟩) := by
+  decide +kernel
+example : Cubic.mul c7cub.wrap (⟨1, 2, 3⟩ : Cubic (ZMod 7)) ⟨1, 1, 2⟩ = 1 := by decide
 /-- `6 = (-1)³` is a cube in `F₇`: the `unwrap` panics -/
-example : Cubic.inverse (Fp3Cfg.default (6 : ZMod 7) [] []).wrap B7 ⟨1, 1, 0⟩ = .panic := by decide
+example : Cubic.inverse (Fp3Cfg.default (6 : ZMod 7) [] []).wrap B7 ⟨1, 1, 0⟩ = .panic := by
+  decide +kernel
 
 /-! ### the templates produce lawful dictionaries (towers) -/
 
@@ -374,10 +377,14 @@ theorem cubic_cyc_exp {cfg : CubicCfg F} {B : FieldD P F} (hB : BaseLawful B)
   Cubic.cycExp_default hB hc hnc a ha e he
 
 example : WF [11] := by unfold WF; decide +kernel
-example : cycExp (CycD.conj (Quad.fieldD c7neg.wrap B7) none) (⟨2, 5⟩ : Quad (ZMod 7)) [11]
-    = .ok ⟨5, 2⟩ := by decide +kernel
-example : cycExp (CycD.default (Cubic.fieldD c7cub.wrap B7)) (⟨1, 2, 3⟩ : Cubic (ZMod 7)) [11]
-    = .ok ⟨0, 6, 3⟩ := by decide +kernel
+example :
+    letI : Mul (Quad (ZMod 7)) := ⟨Quad.mul c7neg.wrap B7⟩
+    cycExp (CycD.conj (Quad.fieldD c7neg.wrap B7) none) (⟨2, 5⟩ : Quad (ZMod 7)) [11]
+      = .ok ⟨5, 5⟩ := by decide +kernel
+example :
+    letI : Mul (Cubic (ZMod 7)) := ⟨Cubic.mul c7cub.wrap⟩
+    cycExp (CycD.default (Cubic.fieldD c7cub.wrap B7)) (⟨1, 2, 3⟩ : Cubic (ZMod 7)) [11]
+      = .ok ⟨6, 5, 5⟩ := by decide +kernel
 
 /-! ### 21. Granger–Scott squaring of `Fp12` -/
 
@@ -446,7 +453,10 @@ theorem char_square_mod6 (limbs : List Nat) :
     charSquareMod6IsOne limbs = decide ((value limbs) ^ 2 % 6 = 1) :=
   charSquareMod6IsOne_spec limbs
 
-example : charSquareMod6IsOne [5, 7, 3] = true := by decide +kernel
+example : charSquareMod6IsOne [5, 3] = true := by decide +kernel
+/-- the BLS12-381 base-field characteristic -/
+example : charSquareMod6IsOne [0xb9feffffffffaaab, 0x1eabfffeb153ffff, 0x6730d2a0f6b0f624,
+    0x64774b84f38512bf, 0x4b1ba7b6434bacd7, 0x1a0111ea397fe69a] = true := by decide +kernel
 example : charSquareMod6IsOne [3] = false := by decide +kernel
 
 /-! ### 23. coordinate conversions -/
